@@ -179,6 +179,36 @@ pub fn c17(a: &Args, rep: &mut Report) {
         let c = gen_case("C17", &a.tier, a.seed, k, &o);
         one_c17("C17", &c, rep);
     });
+    // history: the visit order of a construction must not depend on the constructions made before it (a search tree or a
+    // distance table cached between calls): the same raw positions are built one after the other on one thread with another
+    // dimensionality / periodic flag each time (the unused coordinates differ from generator to generator, so that the
+    // order of the distances is a different one in every dimensionality), forwards and backwards
+    let nh = ncases(a, 60, 600);
+    run_parallel(rep, nh, budget(a, 100., 900.), |k, rep| {
+        let o = GenOpts {
+            sizes: &[8, 27, 100, 300],
+            families: &["uniform", "mildcluster", "gradient"],
+            dims: &[3],
+            mild_box: true,
+            ..Default::default()
+        };
+        let base = gen_case("C17history", &a.tier, a.seed, k, &o);
+        let mut order: Vec<(usize, bool)> = vec![(3, base.periodic), (2, base.periodic), (1, !base.periodic), (2, !base.periodic), (3, !base.periodic), (1, base.periodic)];
+        if k % 2 == 1 {
+            order.reverse();
+        }
+        for (dim, periodic) in order {
+            let mut c = base.clone();
+            c.dim = dim;
+            c.periodic = periodic;
+            c.origin = format!("{}/as{}d{}", base.origin, dim, if periodic { "p" } else { "" });
+            if c.validity().is_err() {
+                continue;
+            }
+            one_c17("C17", &c, rep);
+            rep.count("history_constructions_checked", 1);
+        }
+    });
     large_cases(a, rep, "C17", &[3000, 20000, 70000, 20000], &[3000, 20000, 70000, 140000, 270000], |c, rep| one_c17("C17", c, rep));
     zoom_cells(a, rep, "C17", false, 400, 6000, |c, rep| one_c17("C17", c, rep));
 }
